@@ -472,13 +472,28 @@ Section Conf.
     apply post_bind; [apply post_do_mut; auto | intros; apply post_trim_log; auto].
   Qed.
 
+  Lemma post_reconcile s : sok s -> post (reconcile s).
+  Proof.
+    intro Hs. unfold reconcile.
+    destruct (p_snap (n_p s)); simpl; auto. destruct (log_first (p_log (n_p s))); simpl; auto.
+    destruct (log_last (p_log (n_p s))); simpl; auto.
+    match goal with |- post (if ?c then _ else _) => destruct c end; [apply post_do_mut; auto; exact I|].
+    match goal with |- post (if ?c then _ else _) => destruct c end; simpl; auto.
+    apply post_bind_pure; [apply pure_log_term|]. intros t _.
+    destruct (negb (t =? sn_term s0)); [apply post_do_mut; auto; exact I | simpl; auto].
+  Qed.
+
   Lemma post_new_core id cfg p : pok p -> post (new_core id cfg p).
   Proof.
     intro Hp. unfold new_core.
-    assert (H0 : sok (set_conf (blank_node id cfg p) (init_latest_conf p))).
+    assert (Hb : sok (blank_node id cfg p)).
+    { unfold sok. simpl. split; auto. }
+    apply post_bind; [apply post_reconcile; exact Hb|]. intros r Hr.
+    assert (Hp1 : pok (n_p r)) by (destruct Hr; auto).
+    assert (H0 : sok (set_conf (blank_node id cfg (n_p r)) (init_latest_conf (n_p r)))).
     { unfold sok. simpl. split; auto. split; [apply init_latest_conf_ok; auto | constructor]. }
     apply post_bind.
-    - destruct (p_snap p); [apply post_commit_up_to; auto | simpl; auto].
+    - destruct (p_snap (n_p r)); [apply post_commit_up_to; auto | simpl; auto].
     - intros s1 H1. simpl. vol.
   Qed.
 
